@@ -72,7 +72,7 @@ RULE = ("scenario = pool (min,max) in {(1,2),(2,3),(3,8)} (thorough adds (1,5),(
 def main(run):
     build_harness()
     regen_pool()
-    ok, log = proof_obligations(run, PID, extra_obligations=2, extra_names=["T3: pool wrappers shape obligation (obligations/GenPoolOk.v)", "correspondence_C17: Pool/Check.v check_cap on every snapshot = []"])
+    ok, log = proof_obligations(run, PID, extra_obligations=3, extra_names=["T3: pool wrappers shape obligation (obligations/GenPoolOk.v)", "T2: waiting discipline — waiters hold nothing, one lock order (obligations/GenWaitOk.v)", "correspondence_C17: Pool/Check.v check_cap on every snapshot = []"])
     rng = random.Random(run.seed)
     scs = make_scenarios(rng, run.tier)
     run.log("running %d pool scenarios" % len(scs))
@@ -90,10 +90,13 @@ def main(run):
         run.report({"kind": "pool-scenario", "symptom": code}, {"scenario": strip(byid[sid]), "observation": {k: ob[sid].get(k) for k in ("snaps", "stuck", "reqs", "crash", "stderr")}, "disagreement": CAP_CODES[code]},
                    "C17: pool (%d,%d): %s" % (byid[sid]["min"], byid[sid]["max"], CAP_CODES[code]))
     bad_shape = shape_report(run, PID, 'wrappers', bool(run.violations)) if ok else []
+    bad_wait = wait_report(run, PID, bool(run.violations)) if ok else True
     if not ok and not run.violations:
         run.report({"kind": "proof", "theorem": PID}, {"theorem": "Props/C17.v", "log": log[-3000:]}, "C17: the Coq development no longer builds and no failing history was found", no_input=True)
     cov = run.coverage
     if ok and not bad_shape:
+        cov["discharged"] += 1
+    if ok and not bad_wait:
         cov["discharged"] += 1
     if not mine:
         cov["discharged"] += 1
@@ -102,7 +105,9 @@ def main(run):
                 "samples": [{"scenario": strip(scs[0]), "snapshot": obs[0]["snaps"][:1]}]}, **counts)
     run.assumptions = ["getGengine's spin loop is modelled as 'Get is not enabled while both lists are empty'; real liveness additionally needs a fair scheduler (assumption)",
                        "the put goroutine started by the deferred function is modelled as a separate atomic step (APut)",
-                       "T3 establishes that every wrapper releases its instance in a deferred function (so on error and panic paths too)"]
+                       "T3 establishes that every wrapper releases its instance in a deferred function (so on error and panic paths too)",
+                       "Pool/Progress.v treats taking an instance as one atomic step enabled iff fewer than max are in use (getGengine's spin loop releases its three list mutexes on every iteration — in the order table of GenWaitOk.v) and assumes rules terminate and call at most finitely many updates; sync.RWMutex is modelled with writer preference",
+                       "T2's syntactic lock pairing reports the mutexes held at call sites and acquisitions of engine/gengine_pool.go faithfully (calls through function values are not followed)"]
     return run.finish()
 
 
